@@ -1000,3 +1000,301 @@ contract(F, 'Table.sort', tier='A', props=['C06', 'C07'],
     ],
     raises={'UnknownAxisError': ["not (%s)" % AX], 'UnknownIDError': [AX], '*': []},
     modifies=[])
+
+
+# ---- element / vector accessors (C05: every accessor answers from the cells of the same matrix) ------------------
+ASSUMED['sp.getitem/getrow/getcol'] = (
+    'm[i, j] of a csr / csc matrix is the value of cell (i, j) (0 where nothing is stored); negative indices count '
+    'from the end; an index outside [-dim, dim) raises IndexError; m.getrow(i) / m.getcol(j) is a new 1 x n / m x 1 '
+    'matrix holding that row / column, with the same index rules')
+
+
+def _norm_index(eng, st, i, dim):
+    """[(state, normalised index term)] for the in-range cases, [state] for IndexError"""
+    ok, bad = [], []
+    y, n = eng.fork(st, z3.And(0 <= i, i < dim))
+    ok.extend((s, i) for s in y)
+    for s in n:
+        y2, n2 = eng.fork(s, z3.And(-dim <= i, i < 0))
+        ok.extend((s2, i + dim) for s2 in y2)
+        bad.extend(n2)
+    return ok, bad
+
+
+def _tw_obj_index_elem(self, eng, st, base, n, idx, node):
+    if (n.cls == 'SP' and idx.kind == 'tuple' and len(idx.items) == 2
+            and all(x.kind in ('int', 'bool') for x in idx.items)):
+        self.used.add('sp.getitem/getrow/getcol')
+        sh = n.fields['_shape'].items
+        cell = n.fields['cell'].term
+        out = []
+        oki, badi = _norm_index(eng, st, to_int(idx.items[0]), sh[0].term)
+        out.extend(eng.exc(s, 'IndexError') for s in badi)
+        for s, i in oki:
+            okj, badj = _norm_index(eng, s, to_int(idx.items[1]), sh[1].term)
+            out.extend(eng.exc(s2, 'IndexError') for s2 in badj)
+            out.extend(Result(s2, VReal(cell[i][j])) for s2, j in okj)
+        return out
+    return _prev_obj_index_elem(self, eng, st, base, n, idx, node)
+
+
+_prev_obj_index_elem = TableWorld.obj_index
+TableWorld.obj_index = _tw_obj_index_elem
+
+
+def _tw_sp_method_vec(self, eng, st, recv, n, name, args, kwargs, node):
+    if name in ('getrow', 'getcol'):
+        self.used.add('sp.getitem/getrow/getcol')
+        sh = n.fields['_shape'].items
+        cell = n.fields['cell'].term
+        row = name == 'getrow'
+        ok, bad = _norm_index(eng, st, to_int(args[0]), sh[0].term if row else sh[1].term)
+        out = [eng.exc(s, 'IndexError') for s in bad]
+        for s, i in ok:
+            s = s.copy()
+            c2 = fresh('vec', CELL)
+            a, b = fresh('a', I), fresh('b', I)
+            if row:
+                s.assume(z3.ForAll([a, b], c2[a][b] == cell[i][b], patterns=[c2[a][b]]))
+                shape = VTuple([VInt(1), sh[1]])
+            else:
+                s.assume(z3.ForAll([a, b], c2[a][b] == cell[a][i], patterns=[c2[a][b]]))
+                shape = VTuple([sh[0], VInt(1)])
+            out.append(Result(s, self.make_sp(eng, s, 'vec', cell=VGhost(c2), _shape=shape,
+                                              fmt=VStr('csr' if row else 'csc'))))
+        return out
+    return _prev_sp_method_vec(self, eng, st, recv, n, name, args, kwargs, node)
+
+
+_prev_sp_method_vec = TableWorld.sp_method
+TableWorld.sp_method = _tw_sp_method_vec
+
+contract(F, 'Table.metadata', inline_at_calls=True, tier='P', props=['C05'],
+    types={'self': 'Obj:Table', 'id': 'Opt[Str]', 'axis': 'Str'},
+    requires=["isnone(self._sample_metadata) or len(self._sample_metadata) == len(self._sample_ids)",
+              "isnone(self._observation_metadata) or len(self._observation_metadata) == len(self._observation_ids)",
+              "is_index_of(self._sample_index, self._sample_ids) and is_index_of(self._obs_index, self._observation_ids)"],
+    returns='Val',
+    ensures=[
+        # without an id: the metadata of the requested axis, the object itself
+        "implies(isnone(id) and axis == 'sample', result is self._sample_metadata)",
+        "implies(isnone(id) and axis == 'observation', result is self._observation_metadata)",
+        # with an id: the entry at the position the index of *that axis* gives for it, None without metadata
+        "implies(not isnone(id) and axis == 'sample' and not isnone(self._sample_metadata), "
+        "        result == self._sample_metadata[self._sample_index[some(id)]])",
+        "implies(not isnone(id) and axis == 'observation' and not isnone(self._observation_metadata), "
+        "        result == self._observation_metadata[self._obs_index[some(id)]])",
+        "implies(not isnone(id) and axis == 'sample' and isnone(self._sample_metadata), isnone(result))",
+        "implies(not isnone(id) and axis == 'observation' and isnone(self._observation_metadata), isnone(result))",
+    ],
+    raises={'UnknownAxisError': ["not (%s)" % AX],
+            'UnknownIDError': [AX, "not isnone(id)", "some(id) not in %s" % IDX]},
+    modifies=[])
+
+for _nm, _row in (('_get_row', True), ('_get_col', False)):
+    _p = 'row_idx' if _row else 'col_idx'
+    _dim = 'self._data.shape[%d]' % (0 if _row else 1)
+    contract(F, 'Table.' + _nm, tier='A', props=['C05'],
+        types={'self': 'Obj:Table', _p: 'Int'}, requires=WF_T,
+        returns='Obj:SP',
+        ensures=[
+            "samecells(self._data, old(self._data.cell)) and self._data.shape == old(self._data.shape)",
+            "self._data.fmt == '%s'" % ('csr' if _row else 'csc'),
+            "result.shape[%d] == 1 and result.shape[%d] == self._data.shape[%d]" % ((0, 1, 1) if _row else (1, 0, 0)),
+            # the vector of exactly that position (negative positions count from the end)
+            ("all(cell(result, 0, j) == cell(self._data, {p} if {p} >= 0 else {p} + {d}, j) for j in range(self._data.shape[1]))"
+             if _row else
+             "all(cell(result, i, 0) == cell(self._data, i, {p} if {p} >= 0 else {p} + {d}) for i in range(self._data.shape[0]))")
+            .format(p=_p, d=_dim),
+        ],
+        raises={'IndexError': ["not (-{d} <= {p} and {p} < {d})".format(p=_p, d=_dim)]},
+        modifies=['self._data', 'self._data.*'])
+
+contract(F, 'Table.__getitem__', inline_at_calls=True, tier='A', props=['C05'],
+    types={'self': 'Obj:Table', 'args': 'Pair[Int,Int]'}, requires=WF_T,
+    returns='Real',
+    ensures=["result == cell(self._data, args[0] if args[0] >= 0 else args[0] + self._data.shape[0], "
+             "                            args[1] if args[1] >= 0 else args[1] + self._data.shape[1])",
+             "self._data is oldref(self._data)"],
+    raises={'IndexError': ["self._data.shape[0] == 0 or self._data.shape[1] == 0 "
+                           "or not (-self._data.shape[0] <= args[0] and args[0] < self._data.shape[0]) "
+                           "or not (-self._data.shape[1] <= args[1] and args[1] < self._data.shape[1])"]},
+    modifies=[])
+
+contract(F, 'Table.get_value_by_ids', tier='A', props=['C05'],
+    types={'self': 'Obj:Table', 'obs_id': 'Str', 'samp_id': 'Str'},
+    requires=WF_T + ["is_index_of(self._sample_index, self._sample_ids) and is_index_of(self._obs_index, self._observation_ids)"],
+    returns='Real',
+    ensures=["result == cell(self._data, self._obs_index[obs_id], self._sample_index[samp_id])"],
+    raises={'UnknownIDError': ["obs_id not in self._obs_index or samp_id not in self._sample_index"],
+            'IndexError': ["self._data.shape[0] == 0 or self._data.shape[1] == 0"]},
+    modifies=[])
+
+
+def _tw_isinstance_slice(self, eng, st, v, cls, node):
+    if cls.kind == 'fn' and cls.fk == 'builtin' and cls.name == 'slice':
+        return [Result(st, VBool(v.kind == 'slice'))]
+    return _prev_isinstance_slice(self, eng, st, v, cls, node)
+
+
+_prev_isinstance_slice = TableWorld.isinstance_hook
+TableWorld.isinstance_hook = _tw_isinstance_slice
+
+
+def _tw_global_slice(self, eng, st, n):
+    if n == 'slice':
+        return VFn('builtin', name='slice')
+    return _prev_global_slice(self, eng, st, n)
+
+
+_prev_global_slice = TableWorld.global_name
+TableWorld.global_name = _tw_global_slice
+
+
+def _tw_obj_index_table(self, eng, st, base, n, idx, node):
+    if n.cls == 'Table':
+        # table[...] is Table.__getitem__(table, (...))
+        cls = self.module_classes['Table']
+        m = [x for x in cls.body if isinstance(x, ast.FunctionDef) and x.name == '__getitem__'][0]
+        fv = VFn('def', rel=self.rel, qualname='Table.__getitem__', node=m, self_val=base)
+        return eng.call_def(st, fv, [idx], {}, node)
+    return _prev_obj_index_table(self, eng, st, base, n, idx, node)
+
+
+_prev_obj_index_table = TableWorld.obj_index
+TableWorld.obj_index = _tw_obj_index_table
+
+
+# ---- remove_empty (C08): which vectors are handed to filter ---------------------------------------------------------
+rownz = z3.Function('rownz', CELL, I, I, I)      # (cells, ncols, i): number of non-zero cells of row i
+colnz = z3.Function('colnz', CELL, I, I, I)      # (cells, nrows, j)
+ASSUMED['sp.ne0.sum'] = ('scipy / numpy: (m != 0) is the boolean matrix of the non-zero cells (stored zeros are not non-zero); '
+                         'its .sum(axis=0) / .sum(axis=1) holds, per column / per row, the number of non-zero cells '
+                         '(ghost functions colnz / rownz, each >= 0); numpy.asarray(x).ravel() of that 1 x n / n x 1 '
+                         'matrix is the flat array of those numbers; array > 0 compares element by element')
+
+
+def _tw_compare_nz(self, eng, st, op, a, b):
+    if isinstance(op, ast.NotEq) and a.kind == 'ref' and isinstance(st.node(a), Obj) and st.node(a).cls == 'SP' \
+            and b.kind == 'int' and z3.is_int_value(z3.simplify(b.term)) and z3.simplify(b.term).as_long() == 0:
+        self.used.add('sp.ne0.sum')
+        st = st.copy()
+        n = st.node(a)
+        return Result(st, st.alloc(Obj('SPNZ', {'cell': n.fields['cell'], '_shape': n.fields['_shape']})))
+    if isinstance(op, ast.Gt) and a.kind == 'ref' and isinstance(st.node(a), Arr) and st.node(a).elem in ('int', 'real') \
+            and b.kind in ('int', 'real'):
+        self.used.add('sp.ne0.sum')
+        st = st.copy()
+        n = st.node(a)
+        res = fresh('gt', z3.ArraySort(I, B))
+        k = fresh('k', I)
+        st.assume(z3.ForAll([k], res[k] == (n.a[k] > b.term), patterns=[res[k]]))
+        return Result(st, st.alloc(Arr('bool', res, n.n, 'ndarray')))
+    return _prev_compare_nz(self, eng, st, op, a, b)
+
+
+_prev_compare_nz = TableWorld.compare_objects
+TableWorld.compare_objects = _tw_compare_nz
+
+
+def _tw_obj_method_nz(self, eng, st, recv, n, name, args, kwargs, node, starv=None, dstar=None):
+    if n.cls == 'SPNZ' and name == 'sum':
+        ax = kwargs.get('axis', args[0] if args else None)
+        if ax is None or ax.kind not in ('int', 'bool'):
+            raise EngineError('%s:%d: (m != 0).sum without an integer axis' % (eng.rel, node.lineno))
+        sh = n.fields['_shape'].items
+        cell = n.fields['cell'].term
+        t = to_int(ax)
+        out = []
+        y0, rest = eng.fork(st, t == 0)
+        for s0 in y0:
+            s0 = s0.copy()
+            arr = fresh('colnz', z3.ArraySort(I, I))
+            j = fresh('j', I)
+            s0.assume(z3.ForAll([j], z3.And(arr[j] == colnz(cell, sh[0].term, j), arr[j] >= 0), patterns=[arr[j]]))
+            out.append(Result(s0, s0.alloc(Arr('int', arr, sh[1].term, 'ndarray'))))
+        for s1 in rest:
+            y1, bad = eng.fork(s1, t == 1)
+            for s2 in y1:
+                s2 = s2.copy()
+                arr = fresh('rownz', z3.ArraySort(I, I))
+                i = fresh('i', I)
+                s2.assume(z3.ForAll([i], z3.And(arr[i] == rownz(cell, sh[1].term, i), arr[i] >= 0), patterns=[arr[i]]))
+                out.append(Result(s2, s2.alloc(Arr('int', arr, sh[0].term, 'ndarray'))))
+            for s2 in bad:
+                out.append(eng.exc(s2, 'ValueError'))
+        return out
+    return _prev_obj_method_nz(self, eng, st, recv, n, name, args, kwargs, node, starv, dstar)
+
+
+_prev_obj_method_nz = TableWorld.obj_method
+TableWorld.obj_method = _tw_obj_method_nz
+
+
+def _tw_has_method_nz(self, cls, name):
+    return cls == 'SPNZ' or _prev_has_method_nz(self, cls, name)
+
+
+_prev_has_method_nz = TableWorld.has_method
+TableWorld.has_method = _tw_has_method_nz
+
+
+def _tw_arr_method_nz(self, eng, st, recv, n, name, args, kwargs, node):
+    if name == 'ravel':
+        return [Result(st, recv)]
+    return _prev_arr_method_nz(self, eng, st, recv, n, name, args, kwargs, node)
+
+
+_prev_arr_method_nz = TableWorld.arr_method
+TableWorld.arr_method = _tw_arr_method_nz
+
+
+def _tw_spec_nz(self, eng, st, n, e, bound):
+    if n == 'vecnz':
+        # vecnz(matrix-or-cells, nrows, ncols, axis-name, k): number of non-zero cells of vector k of that axis
+        cells = eng.sev(e.args[0], st, bound)
+        ct = st.node(cells).fields['cell'].term if cells.kind == 'ref' else cells.term
+        m, nn = to_int(eng.sev(e.args[1], st, bound)), to_int(eng.sev(e.args[2], st, bound))
+        ax = eng.sev(e.args[3], st, bound)
+        k = to_int(eng.sev(e.args[4], st, bound))
+        return VInt(z3.If(ax.term == smt.str_lit('sample'), colnz(ct, m, k), rownz(ct, nn, k)))
+    return _prev_spec_nz(self, eng, st, n, e, bound)
+
+
+_prev_spec_nz = TableWorld.spec_call
+TableWorld.spec_call = _tw_spec_nz
+
+_IDS0 = "(old(self._sample_ids) if {ax} == 'sample' else old(self._observation_ids))"
+_KEPT0 = "carg('Table.filter', 0, 'ids_to_keep')"
+_NZ0 = "vecnz(old(self._data.cell), old(self._data.shape[0]), old(self._data.shape[1]), {ax}, k)"
+
+
+def _re_first(ax):
+    ids, nz = _IDS0.format(ax=ax), _NZ0.format(ax=ax)
+    return [
+        # every id handed to the first filter call is the id of a vector with at least one non-zero cell ...
+        "all(any(%s[k] == %s[p] and %s > 0 for k in range(len(%s))) for p in range(len(%s)))" % (ids, _KEPT0, nz, ids, _KEPT0),
+        # ... and every such vector's id is handed over
+        "all(implies(%s > 0, any(%s[p] == %s[k] for p in range(len(%s)))) for k in range(len(%s)))" % (nz, _KEPT0, ids, _KEPT0, ids),
+    ]
+
+
+contract(F, 'Table.remove_empty', tier='A', props=['C08', 'C07'],
+    types={'self': 'Obj:Table', 'axis': 'Str', 'inplace': 'Bool'},
+    requires=WF_T,
+    returns='Alias[self]|Obj:Table',
+    ensures=["(result is self) == inplace",
+             "implies(not inplace, self._data is oldref(self._data) and samecells(self._data, old(self._data.cell)))"],
+    internal=[
+        "implies(axis == 'whole', ccount('Table.filter') == 2 and carg('Table.filter', 0, 'axis') == 'sample' "
+        "        and carg('Table.filter', 1, 'axis') == 'observation' and carg('Table.filter', 1, 'self') is result "
+        "        and carg('Table.filter', 1, 'inplace') and not carg('Table.filter', 1, 'invert'))",
+        "implies(axis != 'whole', ccount('Table.filter') == 1 and carg('Table.filter', 0, 'axis') == axis)",
+        "carg('Table.filter', 0, 'self') is result and carg('Table.filter', 0, 'inplace') and not carg('Table.filter', 0, 'invert')",
+    ] + ["implies(axis == 'whole' or axis == 'sample', %s)" % t for t in _re_first("'sample'")]
+      + ["implies(axis == 'observation', %s)" % t for t in _re_first("'observation'")],
+    raises={'UnknownAxisError': ["not (%s or axis == 'whole')" % AX], 'KeyError': []},
+    modifies=[("inplace", 'self._data'), ("inplace", 'self._data.*'),
+              ("inplace and axis != 'observation'", 'self._sample_ids'), ("inplace and axis != 'observation'", 'self._sample_metadata'),
+              ("inplace and axis != 'sample'", 'self._observation_ids'), ("inplace and axis != 'sample'", 'self._observation_metadata'),
+              ("inplace", 'self._sample_index'), ("inplace", 'self._obs_index')])
